@@ -69,7 +69,9 @@ def install():
 # sorting
 
 def sort_inputs(rng):
-    n = int(rng.choice([0, 1, 2, 3, 5, 17, 64, 200, 400], p=[.05, .05, .1, .1, .1, .2, .2, .1, .1]))
+    # (up to 900: with the pivot at the end, ordered and heavily tied inputs recurse once per element, and the default
+    # interpreter limit of 1000 frames is the deepest the unchanged code can go)
+    n = int(rng.choice([0, 1, 2, 3, 5, 17, 64, 200, 400, 520, 700, 900], p=[.05, .05, .1, .1, .1, .2, .15, .1, .06, .03, .03, .03]))
     kind = ["int-ties", "int", "float", "str", "bool-like", "typed"][int(rng.integers(0, 6))]
     if kind == "typed":
         # arrays of a fixed-width integer or float32 type, using the whole range of the type (ends included)
@@ -96,7 +98,7 @@ def sort_inputs(rng):
         v = ["".join(rng.choice(list("abAB0 "), size=int(rng.integers(0, 4)))) for _ in range(n)]
     else:
         v = rng.integers(0, 2, size=n).tolist()
-    shape = ["random", "sorted", "reversed", "constant", "organ-pipe", "nearly-sorted"][int(rng.integers(0, 6))]
+    shape = ["random", "sorted", "reversed", "constant", "organ-pipe", "nearly-sorted", "down-then-up"][int(rng.integers(0, 7))]
     if shape == "sorted":
         v = sorted(v)
     elif shape == "reversed":
@@ -106,6 +108,10 @@ def sort_inputs(rng):
     elif shape == "organ-pipe":
         s = sorted(v)
         v = s[::2] + s[1::2][::-1]
+    elif shape == "down-then-up" and n > 3:
+        srt = sorted(v)
+        k = n // 3
+        v = srt[:k][::-1] + srt[k:]
     elif shape == "nearly-sorted" and n > 2:
         v = sorted(v)
         i, j = rng.integers(0, n, size=2)
